@@ -324,6 +324,8 @@ def fam_option_authority(res):
                         default = DEFAULT_PORT[scheme]
                         ok = ghost is not None and _same_host(ghost, want_host) and (gport == want_port or {gport, want_port} == {None, default}) \
                             and tuple(m2.opt.uri_path) == path and m2.remote.scheme == scheme
+                        if ":" in want_host and (m2.opt.uri_host is not None or "[" not in uri):
+                            ok = False      # an IPv6 address is an IP-literal in the URI (brackets) and never comes back as a Uri-Host name
                         if not ok:
                             res.violate(Violation("options-roundtrip", {"scheme": scheme, "host": want_host, "port": want_port, "path": path},
                                                   {"uri": uri, "host": ghost, "port": gport, "path": tuple(m2.opt.uri_path)}, "message.py:get_request_uri", case,
